@@ -9,7 +9,7 @@ TECH = "deterministic simulation with fault injection: seeded search over operat
 CHECKS = {
     "C02": dict(
         level="exploration",
-        text="Seeded deterministic simulation of every hash context type (30 variants incl. keyed/odd-size/dynamic BLAKE2): up to 4 forked handles, scheduler-chosen interleaving of update/update_mut/fork/reset/reset_with_key/finalize_reset/finalize with block-boundary fragmentation and misaligned slices; every finalize and every still-live handle at end of run is compared with the library's own one-call digest of the model's byte log. All sequences of <=3 boundary operations per variant are enumerated first; the deciding step is the random search (1.5M runs quick, 100M thorough). The same split / clone / finalize-and-reset statement is also run on contexts whose BLAKE2 byte counter or SHA-1/SHA-2/RIPEMD-160 length counter was preset through hooks H1/H4 next to a word boundary (scenarios ctrwrap, lenwrap: fragmented history vs one call under the same preset), a state real data only reaches after 2^29..2^64 bytes. In a quarter of the BLAKE2 runs a call the API refuses (finalize_reset[_with_key]_at into a wrong-size buffer, an over-long key) is made on the live context and the history goes on: the digest must still depend only on the bytes fed (a later call may fail loudly, never return a wrong digest). BLAKE2 const-size contexts are constructed through both documented routes (Context::new[_keyed] and the Blake2b/Blake2s marker types). Sampling, not proof.",
+        text="Seeded deterministic simulation of every hash context type (30 variants incl. keyed/odd-size/dynamic BLAKE2): up to 4 forked handles, scheduler-chosen interleaving of update/update_mut/fork/reset/reset_with_key/finalize_reset/finalize with block-boundary fragmentation and misaligned slices; every finalize and every still-live handle at end of run is compared with the library's own one-call digest of the model's byte log. All sequences of <=3 boundary operations per variant are enumerated first; the deciding step is the random search (1.5M runs quick, 100M thorough). The same split / clone / finalize-and-reset statement is also run on contexts whose BLAKE2 byte counter or SHA-1/SHA-2/RIPEMD-160 length counter was preset through hooks H1/H4 next to a word boundary (scenarios ctrwrap, lenwrap: fragmented history vs one call under the same preset), a state real data only reaches after 2^29..2^64 bytes. In a quarter of the BLAKE2 runs a call the API refuses (finalize_reset[_with_key]_at into a wrong-size buffer, an over-long key) is made on the live context and the history goes on: the digest must still depend only on the bytes fed (a later call may fail loudly, never return a wrong digest). A quarter of the re-keying calls use a key related to the one in use (same bytes zero-extended or cut, all zeros, the same key, last bit flipped); a third of the forks go through Clone::clone_from into a context of the same type that holds other pending bytes; one run in 300 is a long history of 300-700 calls. BLAKE2 const-size contexts are constructed through both documented routes (Context::new[_keyed] and the Blake2b/Blake2s marker types). Sampling, not proof.",
         ref="DESIGN.md §4.1",
         note="Trusted: the harness (PRNG, byte-log model, shrinker) and the library's one-call digest path as ground truth (a consistently wrong digest is C01's business, deliberately). Real code: all cryptoxide::hashing contexts.",
         technique=TECH + "; oracle = one-call digest of the model log",
@@ -58,28 +58,28 @@ CHECKS = {
     ),
     "C09": dict(
         level="exploration",
-        text="Three-state lifecycle model (absorbing / done / retired) per handle for Poly1305, Hmac over 18 digests, legacy BLAKE2b/BLAKE2s through Mac (keyed and unkeyed) and the 18 legacy digest wrappers: scheduler-chosen input, result, raw_result, reset, reset_with_key, fork over up to 3 handles, with the misuse faults 'result again' and 'input after result' injected in half of the runs. Oracles: first result == a fresh object of the same type and key fed the same bytes in one call (and == the one-call hash for digest wrappers, == the static one-call function for keyed legacy BLAKE2); second result == first or a loud failure; input after result and result into a wrong-size buffer must fail loudly; reset keeps the key; a re-key of a legacy BLAKE2 object with an over-long key is refused and must leave key, bytes fed and lifecycle state as they were (checked by what follows: reset, input, result). After a call that was refused loudly the history goes on with the same object and an unchanged model: later calls may fail loudly (the handle is then retired) but a call that returns must return the right value. 1M runs quick, 80M thorough.",
+        text="Three-state lifecycle model (absorbing / done / retired) per handle for Poly1305, Hmac over 18 digests, legacy BLAKE2b/BLAKE2s through Mac (keyed and unkeyed) and the 18 legacy digest wrappers: scheduler-chosen input, result, raw_result, reset, reset_with_key, fork over up to 3 handles, with the misuse faults 'result again' and 'input after result' injected in half of the runs. Oracles: first result == a fresh object of the same type and key fed the same bytes in one call (and == the one-call hash for digest wrappers, == the static one-call function for keyed legacy BLAKE2); second result == first or a loud failure; input after result and result into a wrong-size buffer must fail loudly; reset keeps the key; a re-key of a legacy BLAKE2 object with an over-long key is refused and must leave key, bytes fed and lifecycle state as they were (checked by what follows: reset, input, result); a third of the valid re-keys use a key related to the one in use (zero-extended or cut, all zeros, identical, last bit flipped), usually followed by message, result and the trait-level reset that re-keys from the stored copy; one run in 300 is a long history (300-700 calls). After a call that was refused loudly the history goes on with the same object and an unchanged model: later calls may fail loudly (the handle is then retired) but a call that returns must return the right value. 1M runs quick, 80M thorough.",
         ref="DESIGN.md §4.8",
         note="Self-referential ground truth ('behaves like a freshly constructed one'). A refused call does not end the history: 'no history makes an object return a value that is not the MAC or digest of the bytes fed' includes histories with refused calls; what is tolerated after a refusal is a loud failure, never a wrong value. Keyed legacy BLAKE2 is driven through Mac only (Digest::reset on a keyed object is documented as 'state after new').",
         technique=TECH + "; oracle = lifecycle state machine + fresh object fed in one call",
     ),
     "C14": dict(
         level="fault_enumeration",
-        text="Signer -> hostile channel -> verifier, plus a Byzantine sender. For every sampled honest (seed, message) the complete catalogue is enumerated: untouched (must accept); all 512 signature bit flips, all 256 public-key bit flips, every/sampled message bit, truncate/extend, S+kL for k=1..15, another signer's key, another message's signature (must reject: an accepted one would be a forgery). Adversarial triples are judged by an INDEPENDENT Ed25519 model written from RFC 8032 on plain 256-bit integers (model::ed25519; unit-tested against RFC 8032 test vectors, base-point order and torsion orders): the honest triple itself, random (key, signature) pairs, canonical non-point keys, mixed-order keys A+T (T of order 2/4/8) with a signature produced by the real signer over those key bytes (valid iff the torsion part cancels), boundary values of S (0, 1, L-1, L, L+1, 2^252, ...), special encodings of R (the 8 torsion points, non-canonical identity encodings, random), crafted equations with S from the boundary family around L / 2^252 / 2L / 8L, honest signatures made from an UNCLAMPED extended secret (signature_extended + extended_to_public, 7 scalar classes up to the top of scalarmult_base's documented range a[31] <= 0x80; must verify and must satisfy the model), special R (torsion points, non-canonical identity encodings, random) combined with degenerate S (0, 1, 8, L-1, L) under the honest key, the small-order-key forgeries with canonical and non-canonical R whose verdict is also known in closed form, and small-order keys TOGETHER with a small-order component in R (R = [S]B + T, S = 0 or a boundary scalar, message searched so that T + h*A = O under both readings of h): triples that satisfy the equation although neither R nor A is the identity. Where the property text does not fix the verdict (non-canonical key encodings; keys with a torsion component for which 'h' reduced mod L or not gives different answers) the model says 'unspecified' and the run does not judge. ~1000 verifications per run; 2k runs quick, 120k thorough.",
+        text="Signer -> hostile channel -> verifier, plus a Byzantine sender. For every sampled honest (seed, message) the complete catalogue is enumerated: untouched (must accept); all 512 signature bit flips, all 256 public-key bit flips, every/sampled message bit, truncate/extend, S+kL for k=1..15, another signer's key, another message's signature (must reject: an accepted one would be a forgery). Adversarial triples are judged by an INDEPENDENT Ed25519 model written from RFC 8032 on plain 256-bit integers (model::ed25519; unit-tested against RFC 8032 test vectors, base-point order and torsion orders): the honest triple itself, random (key, signature) pairs, canonical non-point keys, mixed-order keys A+T (T of order 2/4/8) with a signature produced by the real signer over those key bytes (valid iff the torsion part cancels), boundary values of S (0, 1, L-1, L, L+1, 2^252, ...), special encodings of R (the 8 torsion points, non-canonical identity encodings, random), crafted equations with S from the boundary family around L / 2^252 / 2L / 8L, honest signatures made from an UNCLAMPED extended secret (signature_extended + extended_to_public, 9 scalar classes up to the top of scalarmult_base's documented range a[31] <= 0x80, incl. scalars with runs of one repeated byte; must verify and must satisfy the model), special R (torsion points, non-canonical identity encodings, random) combined with degenerate S (0, 1, 8, L-1, L) under the honest key, the small-order-key forgeries with canonical and non-canonical R whose verdict is also known in closed form, and small-order keys TOGETHER with a small-order component in R (R = [S]B + T, S = 0 or a boundary scalar, message searched so that T + h*A = O under both readings of h): triples that satisfy the equation although neither R nor A is the identity. Where the property text does not fix the verdict (non-canonical key encodings; keys with a torsion component for which 'h' reduced mod L or not gives different answers) the model says 'unspecified' and the run does not judge. ~1000 verifications per run; 2k runs quick, 120k thorough.",
         ref="DESIGN.md §4.9 and §10",
         note="Trusted: the harness's integer Ed25519 model and its own SHA-512 (FIPS 180-4; the verdict oracle does not use the library's hash). Triples are sampled (catalogue enumerated per sample), so this is evidence, not proof, that verify accepts exactly the triples satisfying the equation. Non-canonical encodings of the PUBLIC KEY are recorded but not judged.",
         technique=TECH + "; channel-fault catalogue enumerated per sampled signature; verdict oracle = independent RFC 8032 model (closed-form for forgery-hard alterations)",
     ),
     "C16": dict(
         level="exploration",
-        text="Cross-build replay: the simulator is built four times from the same tree (baseline = SSE2 ChaCha + portable SHA-256/BLAKE2, +sse4.1, +avx, +avx2; features the host CPU lacks are skipped and reported) and every binary executes the SAME seeds of hashbulk (SHA-224/256, BLAKE2b/2s with 1..=20 blocks per update at every alignment 0..31 after every partial-buffer fill, keyed/unkeyed), hashctx, ctrjump, streampos, aeadflow, hmacsplit, polysplit, lifecycle, ctrwrap and kdfprobe (HKDF/PBKDF2/scrypt/Argon2, outputs into dirty misaligned buffers, HKDF also with digest objects that carry pending bytes or were already finalised); per-run transcripts (FNV-128 of every byte the real code returned) are diffed against the baseline, a divergence is located to a run, ddmin-minimised with 'the two binaries disagree' as predicate and replayed in fresh processes. In every binary the active (SSE2) ChaCha engine is additionally run in lock-step with the portable engine (hook H3): init for every key/nonce length, rounds, add_back, counters, outputs.",
+        text="Cross-build replay: the simulator is built four times from the same tree (baseline = SSE2 ChaCha + portable SHA-256/BLAKE2, +sse4.1, +avx, +avx2; features the host CPU lacks are skipped and reported) and every binary executes the SAME seeds of hashbulk (SHA-224/256, BLAKE2b/2s with 1..=20 blocks per update at every alignment 0..31 after every partial-buffer fill, keyed/unkeyed), hashctx, ctrjump, streampos, aeadflow, hmacsplit, polysplit, lifecycle, ctrwrap and kdfprobe (HKDF/PBKDF2/scrypt/Argon2, outputs into dirty misaligned buffers, HKDF also with digest objects that carry pending bytes or were already finalised, PBKDF2 over 14 PRFs of every output-length class), and x25519hs / arithprog / sigchannel / ctprobe; the curve scenarios are also replayed in the combined build force-32bits + avx2; per-run transcripts (FNV-128 of every byte the real code returned) are diffed against the baseline, a divergence is located to a run, ddmin-minimised with 'the two binaries disagree' as predicate and replayed in fresh processes. In every binary the active (SSE2) ChaCha engine is additionally run in lock-step with the portable engine (hook H3): init for every key/nonce length, rounds, add_back, counters, outputs.",
         ref="DESIGN.md §4.10",
         note="One seed is one execution whatever the compile-time dispatch selected. A defect shared by all paths changes all transcripts equally and is not C16's business. AVX-512/SHA-NI/aarch64 paths do not exist or are not reachable on this host.",
         technique="deterministic simulation replayed across build configurations: same seeded schedules in 4 builds, transcript equality, ddmin with a two-binary oracle; engine lock-step in-process",
     ),
     "C17": dict(
         level="exploration",
-        text="Cross-build replay across {default 64-bit limbs, --features force-32bits}. 'The library compiles' is checked for real (path dependency, no lint capping): a build failure is a violation with the compiler output as replay artefact. Then both binaries execute the same seeds of sigchannel (Ed25519 keygen/sign/verify verdict vector over the whole channel catalogue incl. S+kL and small-order forgeries), x25519hs (two-party handshake with substituted edge-value u-coordinates, raw curve25519/curve25519_base, ed25519::exchange) and arithprog (seeded straight-line programs over the public Fe/Scalar/Ge API inside the documented operand discipline; scalar decoders and wide reductions are fed boundary families around multiples of L and sparse 512-bit values); transcripts are diffed run by run, divergences minimised with the two binaries as oracle.",
+        text="Cross-build replay across {default 64-bit limbs, --features force-32bits}. 'The library compiles' is checked for real (path dependency, no lint capping): a build failure is a violation with the compiler output as replay artefact. Then both binaries execute the same seeds of sigchannel (Ed25519 keygen/sign/verify verdict vector over the whole channel catalogue incl. S+kL and small-order forgeries), x25519hs (two-party handshake with substituted edge-value u-coordinates, raw curve25519/curve25519_base, ed25519::exchange) and arithprog (seeded straight-line programs over the public Fe/Scalar/Ge API inside the documented operand discipline; scalar decoders and wide reductions are fed boundary families around multiples of L and sparse 512-bit values; scalars with runs of one repeated byte - 0x77, 0x88, 0xff, ... - over a stretch or exactly one 64-bit word, so that window recodings carry through the whole run; the public constants Fe::{ZERO, ONE, SQRTM1, D, D2} are loaded and observed); transcripts are diffed run by run, divergences minimised with the two binaries as oracle.",
         ref="DESIGN.md §4.11",
         note="arithprog is seeded program generation executed in two builds and diffed (nothing scheduled or faulted) and the evidence says so. Restricted to the API subset common to both backends; scalar::muladd is crate-private and reached through ed25519::signature only.",
         technique="deterministic simulation replayed across the two limb backends: same seeded workloads in 2 builds, transcript equality, ddmin with a two-binary oracle; plus 'it compiles'",
